@@ -109,6 +109,9 @@ func cmdWorker(args []string) int {
 	defer jf.Close()
 	st := core.NewStats()
 	wo := &workerOut{Stats: st}
+	wkf := loadKnown()
+	knownKept := map[string]int{}
+	unknown := 0
 	jbuf := make([]byte, 0, 64)
 	// per-case CPU watchdog: a case that consumes more than caseCPU seconds
 	// of CPU time (not wall clock, so machine load does not matter) does not
@@ -152,10 +155,20 @@ func cmdWorker(args []string) int {
 		jbuf[0] = 'D'
 		jf.WriteAt(jbuf[:24], 0)
 		for _, v := range vs {
+			if e := wkf.match(&v); e != nil {
+				// a listed finding: keep a few witnesses, never stop for it
+				knownKept[e.ID]++
+				st.Inc("known_finding_hits:" + e.ID)
+				if knownKept[e.ID] > 2 {
+					continue
+				}
+			} else {
+				unknown++
+			}
 			v.Replay = writeReplay(*replayDir, &v)
 			wo.Violations = append(wo.Violations, v)
 		}
-		if len(wo.Violations) >= *maxViol {
+		if unknown >= *maxViol {
 			break
 		}
 	}
@@ -412,6 +425,8 @@ func cmdRun(args []string) int {
 
 	// after a few worker deaths or many violations the verdict is settled:
 	// the remaining shards are skipped (the evidence says so)
+	kf := loadKnown()
+	unknownCount := 0
 	var stop atomic.Bool
 	var skipped, deaths atomic.Int64
 	sem := make(chan struct{}, *workers)
@@ -485,7 +500,12 @@ func cmdRun(args []string) int {
 					}
 					total.Merge(wo.Stats, 6)
 					viols = append(viols, wo.Violations...)
-					if len(viols) >= 40 {
+					for i := range wo.Violations {
+						if kf.match(&wo.Violations[i]) == nil {
+							unknownCount++
+						}
+					}
+					if unknownCount >= 40 {
 						stop.Store(true)
 					}
 					mu.Unlock()
@@ -563,13 +583,11 @@ func cmdRun(args []string) int {
 	}
 
 	// ---- verdict ----------------------------------------------------------
-	kf := loadKnown()
 	knownSeen := map[string]*knownEntry{}
 	var unknown []core.Violation
 	for i := range viols {
 		if e := kf.match(&viols[i]); e != nil {
 			knownSeen[e.ID] = e
-			total.Inc("known_finding_hits:" + e.ID)
 			continue
 		}
 		unknown = append(unknown, viols[i])
